@@ -108,6 +108,19 @@ func VerifyFunction(ld *Loaded, cs *ContractSet, fn *ssa.Function, ct *Contract)
 	st := newState(alloc0)
 	fr := &Frame{fn: fn, regs: map[ssa.Value]Val{}, label: key, params: map[string]Val{}, ptypes: map[string]types.Type{}, isTop: true,
 		debugVals: map[string]ssa.Value{}}
+	// named locals are known before they are assigned (contract clauses at
+	// early back edges may mention them: any value)
+	for _, b := range fn.Blocks {
+		for _, in := range b.Instrs {
+			if d, ok := in.(*ssa.DebugRef); ok && !d.IsAddr {
+				if idn := identName(d); idn != "" {
+					if _, dup := fr.debugVals[idn]; !dup {
+						fr.debugVals[idn] = d.X
+					}
+				}
+			}
+		}
+	}
 	for _, p := range fn.Params {
 		v := ex.paramVal(p.Type(), p.Name())
 		ex.assumeRefsExist(v, p.Type(), alloc0)
